@@ -1239,13 +1239,39 @@ fn sweep_junction(ctx: &Ctx, tabs: &Tables, thorough: bool) -> Tally {
                                 Err(_) => continue,
                             };
                             let last_idx = if ty.dst { 1 } else { 0 };
-                            for prefix in 0..3 {
+                            // leap-second variants: a record whose UTC instant sits at the rule transition -1/0/+1 (table x rule x
+                            // leap seconds), on a subset
+                            let mut leap_variants: Vec<Vec<(i64, i32)>> = vec![vec![]];
+                            if (i + j + k) % 8 == 0 && x > 4 * DAY28 {
+                                for (c0, step) in [(1i32, 1i32), (1, -1), (-1, -1), (-1, 1)] {
+                                    for dpos in [-1i64, 0, 1] {
+                                        let l1 = x + dpos + c0 as i64;
+                                        leap_variants.push(vec![(l1 - 3 * DAY28, c0), (l1, c0 + step)]);
+                                    }
+                                }
+                            }
+                            for (lv, prefix) in leap_variants.iter().flat_map(|lv| (0..3).map(move |p| (lv, p))) {
+                                if !lv.is_empty() && prefix == 2 {
+                                    continue;
+                                }
                                 let mut z = base.clone();
                                 z.types.push(MType::new(-7200, false, Some("LMT")));
+                                z.leaps = lv.clone();
+                                // transition times are counts: the last transition takes effect at UTC instant t_last
+                                let t_last_c = match z.to_count(t_last) {
+                                    Some(c) => c,
+                                    None => continue,
+                                };
+                                // I5: a transition recorded exactly at a negative leap record denotes a deleted label (the constructor's
+                                // reading to_utc and the switch instant differ by one second): not a junction case
+                                if !lv.is_empty() && (z.switch_instant(t_last_c) != Some(t_last) || z.to_utc(t_last_c) != Some(t_last)) {
+                                    // t_last is a label that no count denotes exactly (deleted / repeated second): skip this placement
+                                    continue;
+                                }
                                 z.trans = match prefix {
-                                    0 => vec![(t_last, last_idx)],
-                                    1 => vec![(t_last - 7200, 2), (t_last, last_idx)],
-                                    _ => vec![(t_last - 100 * 86400, 1 - last_idx), (t_last - 3600, 2), (t_last, last_idx)],
+                                    0 => vec![(t_last_c, last_idx)],
+                                    1 => vec![(t_last_c - 7200, 2), (t_last_c, last_idx)],
+                                    _ => vec![(t_last_c - 100 * 86400, 1 - last_idx), (t_last_c - 3600, 2), (t_last_c, last_idx)],
                                 };
                                 let iz = ImplZone::from_model(&z).unwrap();
                                 let zr = match iz.zref() {
